@@ -67,6 +67,21 @@ def test_temp_fsync_replace_is_atomic():
     assert {st["files"].get("f.json.tmp") for st in states} == {None} | {NEW[:i] for i in range(len(NEW) + 1)}
 
 
+def test_fsync_without_flush_syncs_nothing():
+    """fsync of a file object whose bytes still sit in the process buffer makes an empty file durable"""
+    def save(t):
+        with open(t + ".tmp", "w", encoding="utf-8") as fh:
+            fh.write(NEW.decode())
+            os.fsync(fh.fileno())
+        os.replace(t + ".tmp", t)
+
+    log, states, _, final = _run(save)
+    assert [op[0] for op in log] == ["open", "write", "fsync", "close", "rename"]
+    assert final == {"f.json": NEW}
+    assert b"" in {st["files"]["f.json"] for st in states if st["after"].startswith("rename")}
+    assert _targets(states) == {OLD} | {NEW[:i] for i in range(len(NEW) + 1)}
+
+
 def test_temp_replace_without_fsync_is_not():
     def save(t):
         pathlib.Path(t + ".tmp").write_text(NEW.decode(), encoding="utf-8")
